@@ -285,3 +285,29 @@ Theorem C11_heap_abs_total : forall h a,
   heap_wf h -> (a < hp_next h)%positive -> exists n, h_abs (Pos.to_nat a) h a = Some n.
 Proof. exact heap_wf_abs_total. Qed.
 Print Assumptions C11_heap_abs_total.
+
+(* ---- generalized indices of any depth (a caller-defined Gindex): TreePath.v ---- *)
+From Ztyp Require Import TreePath TreePathProofs.
+
+(* on every 64-bit index, summarising by path is Tree.summarize *)
+Theorem C11_summarize_path_agrees : forall H zh n d p, d < 64 -> p < 2 ^ d ->
+  summarize zh H n (2 ^ d + p) = summarize_path zh H n (g_path (2 ^ d + p)).
+Proof. exact summarize_path_agrees. Qed.
+Print Assumptions C11_summarize_path_agrees.
+
+(* summarising any position - at any depth - preserves the Merkle root *)
+Theorem C11_summarize_path_root : forall H zh n p n',
+  summarize_path zh H n p = OK n' -> root_of H n' = root_of H n.
+Proof. exact summarize_path_root. Qed.
+Print Assumptions C11_summarize_path_root.
+
+(* it succeeds exactly on the positions that exist ... *)
+Theorem C11_summarize_path_ok_iff : forall H zh l r p,
+  (exists n', summarize_path zh H (Pair l r) p = OK n') <-> ~ hits_leaf (Pair l r) p.
+Proof. exact summarize_path_ok_iff. Qed.
+Print Assumptions C11_summarize_path_ok_iff.
+
+(* ... and never panics *)
+Theorem C11_summarize_path_total : forall H zh n p, summarize_path zh H n p <> Panic.
+Proof. exact summarize_path_total. Qed.
+Print Assumptions C11_summarize_path_total.
